@@ -93,6 +93,86 @@ fn dump_iter(it: &mut dyn RainDbIterator<Key = Vec<u8>, Error = RainDBError>) ->
     Ok(out)
 }
 
+/// Random cursor movements on an iterator whose complete contents are known (`view`, sorted): after
+/// every step validity and the current pair must be what a cursor over `view` would show. A step
+/// that reports an error through `status()` ends the program (read errors are judged elsewhere).
+fn cursor_program(it: &mut dyn RainDbIterator<Key = Vec<u8>, Error = RainDBError>, view: &Dump, seed: u64) -> Option<String> {
+    let mut rng = crate::rng::Rng::new(seed);
+    let n = view.len();
+    // model position: None = invalid
+    let mut pos: Option<usize>;
+    let mut trace: Vec<String> = vec![];
+    let steps = 6 + rng.below(14);
+    // start with a seek
+    let i0 = rng.usize_below(n);
+    if it.seek(&view[i0].0).is_err() {
+        return None;
+    }
+    pos = Some(i0);
+    trace.push(format!("seek(#{})", i0));
+    for _ in 0..steps {
+        if it.status().is_some() {
+            return None;
+        }
+        let valid = it.is_valid();
+        let cur = if valid { it.current().map(|(k, v)| (k.clone(), v.clone())) } else { None };
+        let want = pos.map(|p| view[p].clone());
+        if cur != want {
+            return Some(format!("after {} the iterator is at {} but a cursor over its own first scan ({} pairs) is at {}", trace.join(" "), cur.as_ref().map(|(k, _)| show_key(k)).unwrap_or("<invalid>".into()), n, want.as_ref().map(|(k, _)| show_key(k)).unwrap_or("<invalid>".into())));
+        }
+        match rng.below(6) {
+            0 => {
+                let i = rng.usize_below(n);
+                if it.seek(&view[i].0).is_err() {
+                    return None;
+                }
+                pos = Some(i);
+                trace.push(format!("seek(#{})", i));
+            }
+            1 => {
+                // a key right after an existing one: lands on the next pair (or nowhere)
+                let i = rng.usize_below(n);
+                let mut t = view[i].0.clone();
+                t.push(0);
+                if it.seek(&t).is_err() {
+                    return None;
+                }
+                pos = if i + 1 < n { Some(i + 1) } else { None };
+                trace.push(format!("seek(#{}+0x00)", i));
+            }
+            2 => {
+                if it.seek_to_first().is_err() {
+                    return None;
+                }
+                pos = Some(0);
+                trace.push("first".into());
+            }
+            3 => {
+                if it.seek_to_last().is_err() {
+                    return None;
+                }
+                pos = Some(n - 1);
+                trace.push("last".into());
+            }
+            4 => {
+                if let Some(p) = pos {
+                    it.next();
+                    pos = if p + 1 < n { Some(p + 1) } else { None };
+                    trace.push("next".into());
+                }
+            }
+            _ => {
+                if let Some(p) = pos {
+                    it.prev();
+                    pos = if p > 0 { Some(p - 1) } else { None };
+                    trace.push("prev".into());
+                }
+            }
+        }
+    }
+    None
+}
+
 /// Keys that exactly one client writes (besides the single-client setup phase), with the states
 /// that key set goes through: the state after the setup and after each of the owner's writes, in
 /// program order. The owner's writes are sequential, so at every instant the database restricted
@@ -488,6 +568,15 @@ fn client_body(client: usize, plan: Arc<Plan>, db: Arc<DB>, out: Shared, log: Ar
                         match &s.first {
                             None => {
                                 log_view(&log, &plan, client, s.open_call.2, s.open_call.0, s.open_call.1, &d);
+                                if !d.is_empty() {
+                                    let seed = crate::rng::mix2(((client as u64) << 32) | idx as u64, d.len() as u64);
+                                    let it = &mut s.it;
+                                    match call("iterator-cursor-program", || cursor_program(it.as_mut(), &d, seed)) {
+                                        Called::Ok(Some(msg)) => push_finding(&out, Finding::new(&["C04", "C03"], "cursor-mismatch", "concurrent", format!("client {}: {}", client, msg), Some(idx))),
+                                        Called::Ok(None) => with_out(&out, |o| o.stats.bump("concurrent_cursor_programs", 1)),
+                                        Called::Panicked { .. } => dead = true,
+                                    }
+                                }
                                 s.first = Some(d)
                             }
                             Some(first) => {
@@ -495,6 +584,18 @@ fn client_body(client: usize, plan: Arc<Plan>, db: Arc<DB>, out: Shared, log: Ar
                                     let want: Kv = first.iter().cloned().collect();
                                     let dd = diff_kv(&d, &want).unwrap_or_else(|| "order differs".into());
                                     push_finding(&out, Finding::new(&["C03"], "iterator-unstable", "", format!("client {}: two full scans of one iterator differ: {}", client, dd), Some(idx)));
+                                } else if !first.is_empty() {
+                                    // a cursor program against the iterator's own first scan (its view
+                                    // never changes) while writers, flushes, compactions and file
+                                    // deletions go on underneath (C04 under concurrency)
+                                    let first = first.clone();
+                                    let seed = crate::rng::mix2(((client as u64) << 32) | idx as u64, first.len() as u64);
+                                    let it = &mut s.it;
+                                    match call("iterator-cursor-program", || cursor_program(it.as_mut(), &first, seed)) {
+                                        Called::Ok(Some(msg)) => push_finding(&out, Finding::new(&["C04", "C03"], "cursor-mismatch", "concurrent", format!("client {}: {}", client, msg), Some(idx))),
+                                        Called::Ok(None) => with_out(&out, |o| o.stats.bump("concurrent_cursor_programs", 1)),
+                                        Called::Panicked { .. } => dead = true,
+                                    }
                                 }
                             }
                         }
